@@ -198,3 +198,124 @@ theorem matrix_expand_total (p : Params) (fuel : Nat) (rho : List Nat) (hr : rho
   exact this.mono (fun r hr' => ⟨by rw [hr'.1, List.length_range], hr'.2⟩)
 
 end DV.SamplerTotal
+
+namespace DV.SamplerTotal
+open DV DV.ShakeTotal DV.Ranges
+
+/-! ### the eta sampler -/
+
+theorem stream_init256_total (seed : List Nat) (nonce : Nat) (hs : seed.length = CRHBYTES) :
+    ∃ st, shake256_stream_init seed nonce = .ok st ∧ st.pos = R256 := by
+  unfold shake256_stream_init
+  obtain ⟨st1, h1, p1⟩ := absorb256_total KeccakState.init seed (by rw [init_pos]; decide)
+  rw [← hs, h1, ok_bind]
+  obtain ⟨st2, h2, p2⟩ := absorb256_total st1 [nonce % 256, (nonce / 256) % 256] p1
+  have : ([nonce % 256, (nonce / 256) % 256] : List Nat).length = 2 := rfl
+  rw [this] at h2
+  rw [h2, ok_bind]
+  exact finalize256_total st2 p2
+
+/-- a conditional push never overruns the output: capacity = requested length -/
+theorem push_total (c : Prop) [Decidable c] (acc : List Int) (v : Int) (alen : Nat) (hc : c → acc.length < alen) :
+    ∃ acc', (if c then (if acc.length < alen then (.ok (acc ++ [v]) : Chk (List Int)) else .error .oob) else .ok acc) = .ok acc' := by
+  by_cases h : c
+  · rw [if_pos h, if_pos (hc h)]; exact ⟨_, rfl⟩
+  · rw [if_neg h]; exact ⟨_, rfl⟩
+
+theorem rej_eta_loop_total (lv : Lvl) (alen : Nat) (buf : List Nat) (buflen : Nat) (hb : buflen ≤ buf.length) :
+    ∀ (fuel pos : Nat) (acc : List Int), ∃ r, rej_eta_loop lv alen alen buf buflen fuel pos acc = .ok r := by
+  intro fuel
+  induction fuel with
+  | zero => intro pos acc; exact ⟨acc, rfl⟩
+  | succ n ih =>
+    intro pos acc
+    unfold rej_eta_loop
+    by_cases hc : acc.length < alen ∧ pos < buflen
+    · rw [if_pos hc, getC_ok buf pos 0 (by omega), ok_bind]
+      simp only
+      cases lv with
+      | l3 =>
+        simp only
+        obtain ⟨a1, h1⟩ := push_total (buf.getD pos 0 &&& 0x0F < 9) acc ((4 : Int) - ((buf.getD pos 0 &&& 0x0F : Nat) : Int)) alen (fun _ => hc.1)
+        rw [h1, ok_bind]
+        obtain ⟨a2, h2⟩ := push_total (buf.getD pos 0 >>> 4 < 9 ∧ a1.length < alen) a1 ((4 : Int) - ((buf.getD pos 0 >>> 4 : Nat) : Int)) alen (fun h => h.2)
+        rw [h2, ok_bind]
+        exact ih _ _
+      | l2 =>
+        simp only
+        obtain ⟨a1, h1⟩ := push_total (buf.getD pos 0 &&& 0x0F < 15) acc _ alen (fun _ => hc.1)
+        rw [h1, ok_bind]
+        obtain ⟨a2, h2⟩ := push_total (buf.getD pos 0 >>> 4 < 15 ∧ a1.length < alen) a1 _ alen (fun h => h.2)
+        rw [h2, ok_bind]
+        exact ih _ _
+      | l5 =>
+        simp only
+        obtain ⟨a1, h1⟩ := push_total (buf.getD pos 0 &&& 0x0F < 15) acc _ alen (fun _ => hc.1)
+        rw [h1, ok_bind]
+        obtain ⟨a2, h2⟩ := push_total (buf.getD pos 0 >>> 4 < 15 ∧ a1.length < alen) a1 _ alen (fun h => h.2)
+        rw [h2, ok_bind]
+        exact ih _ _
+    · rw [if_neg hc]; exact ⟨acc, rfl⟩
+
+theorem eta_consts : UNIFORM_ETA_NBLOCKS = 1 ∧ R256 = 136 ∧ N = 256 := by decide
+
+theorem uniform_eta_loop_total (lv : Lvl) : ∀ (fuel : Nat) (st : KeccakState) (acc : List Int),
+    OkOrFuel (uniform_eta_loop lv fuel st acc) (fun _ => True) := by
+  obtain ⟨hNB, hR, hN⟩ := eta_consts
+  intro fuel
+  induction fuel with
+  | zero => intro st acc; right; rfl
+  | succ n ih =>
+    intro st acc
+    unfold uniform_eta_loop
+    by_cases hlt : acc.length < N
+    · rw [if_pos hlt]
+      obtain ⟨buf, st1, hsq, lb, _, _⟩ := squeezeblocks256_total (UNIFORM_ETA_NBLOCKS * R256) 1 st (by rw [hNB]; omega)
+      rw [hsq, ok_bind]
+      simp only
+      obtain ⟨more, hm⟩ := rej_eta_loop_total lv (N - acc.length) buf R256 (by rw [lb]; omega) (R256 + 1) 0 []
+      have : rej_eta lv (N - acc.length) (N - acc.length) buf R256 = .ok more := hm
+      rw [this, ok_bind]
+      exact ih st1 _
+    · rw [if_neg hlt]; exact OkOrFuel.of_ok acc rfl trivial
+
+theorem poly_uniform_eta_total (lv : Lvl) (fuel : Nat) (seed : List Nat) (nonce : Nat) (hs : seed.length = CRHBYTES) :
+    OkOrFuel (poly_uniform_eta lv fuel seed nonce) (fun r => r.length = 256 ∧ SmallE (etaI lv) r) := by
+  obtain ⟨hNB, hR, hN⟩ := eta_consts
+  have key : OkOrFuel (poly_uniform_eta lv fuel seed nonce) (fun _ => True) := by
+    unfold poly_uniform_eta
+    obtain ⟨st, h1, _⟩ := stream_init256_total seed nonce hs
+    rw [h1, ok_bind]
+    obtain ⟨buf, st1, hsq, lb, _, _⟩ := squeezeblocks256_total (UNIFORM_ETA_NBLOCKS * R256) UNIFORM_ETA_NBLOCKS st (Nat.le_refl _)
+    rw [hsq, ok_bind]
+    simp only
+    obtain ⟨acc, ha⟩ := rej_eta_loop_total lv N buf (UNIFORM_ETA_NBLOCKS * R256) (by rw [lb]; exact Nat.le_refl _) (UNIFORM_ETA_NBLOCKS * R256 + 1) 0 []
+    have : rej_eta lv N N buf (UNIFORM_ETA_NBLOCKS * R256) = .ok acc := ha
+    rw [this, ok_bind]
+    exact uniform_eta_loop_total lv fuel st1 acc
+  rcases key with ⟨r, hr, _⟩ | he
+  · exact Or.inl ⟨r, hr, poly_uniform_eta_small lv fuel seed nonce r hr⟩
+  · exact Or.inr he
+
+theorem vec_uniform_eta_total (lv : Lvl) (fuel : Nat) (seed : List Nat) (hs : seed.length = CRHBYTES) : ∀ (n : Nat) (nonce : Int),
+    0 ≤ nonce → nonce + n ≤ 65535 →
+    OkOrFuel (vec_uniform_eta_go lv fuel seed n nonce) (fun v => v.length = n ∧ ∀ a ∈ v, a.length = 256 ∧ SmallE (etaI lv) a) := by
+  intro n
+  induction n with
+  | zero => intro nonce _ _; exact OkOrFuel.of_ok [] rfl ⟨rfl, by intro a ha; cases ha⟩
+  | succ n ih =>
+    intro nonce h0 h1
+    unfold vec_uniform_eta_go
+    apply OkOrFuel.bind (poly_uniform_eta_total lv fuel seed nonce.toNat hs)
+    intro a ha
+    have hck : chkU16 (nonce + 1) = .ok (nonce + 1) := by
+      unfold chkU16; rw [if_pos (by push_cast at h1; omega)]
+    rw [hck, ok_bind]
+    apply OkOrFuel.bind (ih (nonce + 1) (by omega) (by push_cast at h1 ⊢; omega))
+    intro rest hrest
+    exact OkOrFuel.of_ok _ rfl ⟨by simp [hrest.1], fun x hx => by
+      rcases List.mem_cons.mp hx with rfl | hx
+      · exact ha
+      · exact hrest.2 x hx⟩
+
+end DV.SamplerTotal
